@@ -196,6 +196,13 @@ var pureExtPrefixes = []string{"fmt.", "errors.", "strings.", "strconv.", "bytes
 var sliceWriters = []string{"sort.", "io.ReadFull", "crypto/rand.Read", "encoding/binary.", "(encoding/binary.", "io.ReadAtLeast", "(*os.File).Read",
 	"(*bufio.Reader).Read", "encoding/hex.Encode", "encoding/hex.Decode", "(io.Reader).Read", "math/rand.Read", "(*math/rand.Rand).Read"}
 
+// members of the "pure" packages that do write through a pointer argument
+var impureExceptions = []string{"errors.As", "fmt.Sscan", "fmt.Fscan", "fmt.Scan"}
+
+func pureExternal(key string) bool {
+	return hasAnyPrefix(key, pureExtPrefixes) && !hasAnyPrefix(key, impureExceptions)
+}
+
 func hasAnyPrefix(s string, ps []string) bool {
 	for _, p := range ps {
 		if strings.HasPrefix(s, p) {
@@ -206,7 +213,7 @@ func hasAnyPrefix(s string, ps []string) bool {
 }
 
 func (P *Prog) externalMods(com *ssa.CallCommon, key string) []string {
-	if hasAnyPrefix(key, pureExtPrefixes) {
+	if pureExternal(key) {
 		return nil
 	}
 	out := map[string]bool{}
